@@ -486,11 +486,11 @@ class InputFile:
 
         for key, value in ui_json.items():
             if isinstance(value, dict):
+                value = cls.numify(value)
                 try:
                     cls.ui_validation(value)
                 except tuple(BaseValidationError.__subclasses__()) as error:
                     raise JSONParameterValidationError(key, error.args[0]) from error
-                value = cls.numify(value)
 
             mappers = [str2none, str2inf, str2uuid, path2workspace]
             ui_json[key] = dict_mapper(value, mappers)
